@@ -28,6 +28,10 @@ func (d *numberDecoder) DecodeStream(s *Stream, depth int64, p unsafe.Pointer) e
 	if err != nil {
 		return err
 	}
+	if bytes == nil {
+		s.reset()
+		return nil // null: the destination keeps its value
+	}
 	if !isValidNumber(bytes) {
 		return errInvalidNumber(bytes, s.totalOffset())
 	}
@@ -40,6 +44,9 @@ func (d *numberDecoder) Decode(ctx *RuntimeContext, cursor, depth int64, p unsaf
 	bytes, c, err := d.decodeByte(ctx.Buf, cursor)
 	if err != nil {
 		return 0, err
+	}
+	if bytes == nil {
+		return c, nil // null: the destination keeps its value
 	}
 	if !isValidNumber(bytes) {
 		return 0, errInvalidNumber(bytes, c)
